@@ -300,6 +300,38 @@ macro_rules! width_checks {
     }};
 }
 
+/// u128 values beyond what an i128 holds (the matrix above is driven by an i128): all of them are
+/// beyond the i64 range, so every serializer has to refuse them - a wrapped negative number is the
+/// typical wrong answer at the top of the range
+fn check_u128_top(st: &mut Stats) -> Result<(), Failure> {
+    let mut vals: Vec<u128> = vec![];
+    for d in 0..=40u128 {
+        vals.push(u128::MAX - d);
+        vals.push((1u128 << 127) + d);
+        vals.push(u128::MAX - (1u128 << 63) + d);
+        vals.push(u128::MAX - (1u128 << 63) - d);
+        vals.push(u128::MAX - (1u128 << 64) + d);
+        vals.push(u128::MAX - (1u128 << 32) + d);
+    }
+    for x in vals {
+        st.eval();
+        st.class("u128-top");
+        for (who, r) in [
+            ("toml::to_string", toml::to_string(&W { v: x }).map_err(|e| e.to_string())),
+            ("toml_edit::ser::to_string", toml_edit::ser::to_string(&W { v: x }).map_err(|e| e.to_string())),
+            ("toml::Value::try_from", toml::Value::try_from(W { v: x }).map(|t| t.to_string()).map_err(|e| e.to_string())),
+            ("toml::Table::try_from", toml::Table::try_from(W { v: x }).map(|t| t.to_string()).map_err(|e| e.to_string())),
+            ("toml::Value::try_from (bare)", toml::Value::try_from(x).map(|t| t.to_string()).map_err(|e| e.to_string())),
+            ("toml_edit::ser::ValueSerializer", serde::Serialize::serialize(&x, toml_edit::ser::ValueSerializer::new()).map(|v| v.to_string()).map_err(|e| e.to_string())),
+        ] {
+            if let Ok(s) = r {
+                return Err(Failure::new("serde-width-out", format!("{who}: u128 {x} is beyond i64 but is written as {s:?}"), json!({"value": x.to_string(), "type": "u128"})));
+            }
+        }
+    }
+    Ok(())
+}
+
 fn check_widths(v: i128, st: &mut Stats) -> Result<(), Failure> {
     width_checks!(st, v, i8, u8, i16, u16, i32, u32, i64, u64, i128, u128, isize, usize);
     Ok(())
@@ -442,6 +474,9 @@ pub fn run(args: Args) -> ! {
                 }
             }
         }
+    }
+    if let Err(f) = check_u128_top(&mut rep.stats) {
+        rep.violation("serde-width", None, &f);
     }
     let run = run_tape("C11.values", &prop, 16, args.tier.pick(2_000_000, 40_000_000), args.seed, workers());
     finish_run(&mut rep, "values", run);
